@@ -2,7 +2,7 @@ SPECIFICATION Spec
 CONSTANTS
   Contacts = {"c1"}
   Kinds = {"good", "bad"}
-  OpKinds = {"en", "dis", "rs", "enq", "blk", "unb", "sent"}
+  OpKinds = {"en", "rs", "enq", "blk", "unb", "sent"}
   MaxOps = 4
   MaxSeed = 2
   MaxLk = 3
